@@ -85,9 +85,7 @@ pub fn run(args: &Args, sink: &mut Sink, rng: &mut Rng) {
                 Ok(Err(_)) => Err(false),
                 Err(_) => Err(true),
             };
-            // SANITY-PLANT (temporary): record a wrong run length for the unit-test input
-            let out_s = if std::env::var("HX_C26_PLANT").is_ok() { coq::outcome(&out).replace("[3; 2; 4]", "[3; 2; 5]") } else { coq::outcome(&out) };
-            b_enc.push(&mut s_enc, format!("({}, {})", ts, nlist(&vals)), out_s, human.clone());
+            b_enc.push(&mut s_enc, format!("({}, {})", ts, nlist(&vals)), coq::outcome(&out), human.clone());
         } else {
             let out = match &r {
                 Ok(Ok((c, _))) if c.data.len() == 2 && c.data[0].len() % ts == 0 => Ok(format!("({}, {}, {})", nlist(&from_bytes(c.data[0].as_ref(), ts)), coq::bytes(c.data[1].as_ref()), coq_chunks(&c.chunks))),
